@@ -152,6 +152,17 @@ Theorem no_panic : forall digest rsa_ok ecdsa_ok dsa_ok k,
 Proof. exact no_panic_lemma. Qed.
 Print Assumptions no_panic.
 
+(* tls.CreateSignature never produces a DigitallySigned declaring an algorithm identifier outside
+   RFC 5246's: it succeeds <-> the hash code asked for is md5(1)..sha512(6), the key is an RSA /
+   ECDSA private key value and the signing primitive succeeded, and then declares exactly that
+   hash code with the key type's signature code (over the generated table, no bound on the code) *)
+Theorem create_declares_only_defined_codes : forall sign_ok pk h,
+  (forall ha a, create_signature sign_ok pk h = Ok (ha, a) <->
+     ha = h /\ 1 <= h <= 6 /\ sign_ok = true /\ ((pk = PrivRSA /\ a = 1) \/ (pk = PrivECDSA /\ a = 3))) /\
+  create_signature sign_ok pk h <> Panic.
+Proof. exact create_signature_spec. Qed.
+Print Assumptions create_declares_only_defined_codes.
+
 (* ---------------- non-vacuity ---------------- *)
 Section Examples.
   (* toy oracles: the digest is the message itself; the (EC)DSA primitive accepts (r, s) = (5, 7)
@@ -196,6 +207,14 @@ Section Examples.
     new_verifier true (KRSA 1 1024) = Ok tt /\ new_verifier false (KECDSA 1 P256) = Ok tt /\
     new_verifier false (KECDSA 1 P384) = Err /\ new_verifier true (KECDSA 1 P521) = Ok tt /\
     new_verifier true (KDSA 1) = Err /\ new_verifier true (KEd25519 1) = Err /\ new_verifier true (KOther 1) = Err.
+  Proof. vm_compute. repeat split. Qed.
+
+  Example created :
+    create_signature true PrivRSA 4 = Ok (4, 1) /\ create_signature true PrivECDSA 6 = Ok (6, 3) /\
+    create_signature true PrivECDSA 0 = Err /\ create_signature true PrivECDSA 7 = Err /\
+    create_signature true PrivECDSA 13 = Err /\ create_signature true PrivRSA 14 = Err /\
+    create_signature true PrivRSA 255 = Err /\ create_signature true PrivOther 4 = Err /\
+    create_signature false PrivRSA 4 = Err.
   Proof. vm_compute. repeat split. Qed.
 
   Example signed_objects :
